@@ -163,7 +163,9 @@ Qed.
 
 Lemma ext_reachable h h' gs l : ext h h' -> (reachable h gs l <-> reachable h' gs l).
 Proof.
-  intros E. split; intros [r [Hin Hp]]; exists r; split; auto; eapply ext_reach; eauto.
+  intros E. split; intros [r [Hin Hp]]; exists r; split; auto.
+  - apply (proj1 (ext_reach _ _ r l E)); exact Hp.
+  - apply (proj2 (ext_reach _ _ r l E)); exact Hp.
 Qed.
 
 Lemma freeze_frame_lemma : forall fuel gs h h',
